@@ -403,8 +403,11 @@ def run_case(case, ctx, full_output=True):
             _OBS.clear()
             del rec.calls[:]
             ctx.count('same_array_updated_in_place_between_calls')
+        x_then = np.array(x, copy=True) if isinstance(x, np.ndarray) else None
         with np.errstate(all='ignore'):
             out = dobj(x)
+        if x_then is not None:
+            res['x_modified'] = bool(x.tobytes() != x_then.tobytes())
     except Exception as exc:
         res['outcome'] = 'raised'
         res['exc'] = exc
